@@ -638,7 +638,7 @@ class C06(Prop, ScriptGen):
                 if v <= 10001 - 3:
                     yield self.ev(b'\x4d' + v.to_bytes(2, 'little') + b'\x00' * v, [], 0, tag='pool-push')
         # (b) grammar programs, signatures, multisig, mutants — random part, every shard its own stream
-        nprog = (6000 if big else 700)
+        nprog = (22000 if big else 700)
         for _ in range(nprog):
             sc = self.gen_program(rng)
             st = [self.rand_value(rng) for _ in range(rng.choice([0, 0, 1, 2, 3, 5]))]
@@ -646,7 +646,7 @@ class C06(Prop, ScriptGen):
             yield self.ev(sc, st, mask, tag='grammar')
             if rng.random() < 0.5:
                 yield self.ev(self.mutate(rng, sc), st, mask, tag='mutant')
-        for _ in range(400 if big else 45):
+        for _ in range(1000 if big else 45):
             ti = rng.randrange(3)
             idx = rng.randrange(len(self.txs[ti]['vin']) + (1 if rng.random() < 0.1 else 0))
             sc, st = self.sig_program(rng, ti, idx)
@@ -654,7 +654,7 @@ class C06(Prop, ScriptGen):
                 yield self.ev(sc, st, mask, ti, idx, tag='checksig')
             if rng.random() < 0.3:
                 yield self.ev(self.mutate(rng, sc), st, 0, ti, idx, tag='checksig-mutant')
-        for n in list(range(21)) * (3 if big else 1):
+        for n in list(range(21)) * (6 if big else 1):
             if rng.random() < (1.0 if big else 0.25):
                 ti = rng.randrange(3)
                 idx = rng.randrange(len(self.txs[ti]['vin']))
@@ -662,7 +662,7 @@ class C06(Prop, ScriptGen):
                 for mask in (0, 2) + ((3, 11) if big else ()):
                     yield self.ev(sc, st, mask, ti, idx, tag='multisig')
         # (d) VerifyScript
-        for _ in range(8 if big else 1):
+        for _ in range(16 if big else 1):
             ti = rng.randrange(3)
             idx = rng.randrange(len(self.txs[ti]['vin']))
             for (sig, spk, tag) in self.verify_pairs(rng, ti, idx):
